@@ -1,29 +1,32 @@
-(* Proofs about Elem/WRR.v: the theorems of SchedBaseProofs.v instantiated for WRR (onl/scheduler/wrr.py); every statement quantifies over
+(* Proofs about Elem/WRR.v: the theorems of SchedBaseProofs.v instantiated for WRR (onl/scheduler/wrr.py; identity class map); every statement quantifies over
    ALL admissible executions (wrr_run ... acts = Some (s, tr)), all rates > 0 and all configurations. *)
 From Coq Require Import ZArith QArith List Bool Lia Lqa.
 From ONL Require Import Elem.Packet Elem.StoreQ Elem.StoreQProofs Elem.SchedBase Elem.SchedBaseProofs Elem.WRR.
 Import ListNotations.
 
+Lemma wrr_wf r ws : 0 < r -> wf (wrr_cfg r ws).
+Proof. intros R. split; [exact R|]. intros _ f. reflexivity. Qed.
+
 Lemma wrr_cfg_ok r ws : 0 < r -> (forall f w, In (f, w) ws -> (0 < w)%Z) -> cfg_ok (wrr_cfg r ws).
 Proof.
-  intros R Pos. split; [exact R|]. intros f n Hin. cbn in Hin. apply in_map_iff in Hin as ([g w] & E & Hw).
+  intros R Pos. split; [apply wrr_wf; exact R|]. intros f n Hin. cbn in Hin. apply in_map_iff in Hin as ([g w] & E & Hw).
   unfold wrr_slot in E; cbn in E. injection E as _ <-. specialize (Pos g w Hw). lia.
 Qed.
 
 Lemma wrr_work_conserving : forall (r : Q) (ws : list (Z * Z)) acts s tr t x,
   0 < r -> (forall f w, In (f, w) ws -> (0 < w)%Z) ->
   wrr_run r ws acts = Some (s, tr) -> wrr_act r ws s (SAdvance t) = Some x ->
-  (exists p dl, mchild s = CTx p dl /\ mcur s = Some p /\ mnow s < dl) \/ (forall f, held_flow s f = []).
+  (exists p dl, mchild s = CTx p dl /\ mcur s = Some p /\ mnow s < dl) \/ (forall k, held_class (wrr_cfg r ws) s k = []).
 Proof. intros r ws acts s tr t x R Pos H A. exact (work_conserving0 (wrr_cfg r ws) acts s tr t x (wrr_cfg_ok r ws R Pos) H A). Qed.
 
 Lemma wrr_one_at_a_time_tx_time : forall (r : Q) (ws : list (Z * Z)) acts s tr,
   0 < r ->
   wrr_run r ws acts = Some (s, tr) -> tx_wf (wrr_cfg r ws) None tr.
-Proof. intros r ws acts s tr R H. exact (tx_wf_run0 (wrr_cfg r ws) acts s tr R H). Qed.
+Proof. intros r ws acts s tr R H. exact (tx_wf_run0 (wrr_cfg r ws) acts s tr (wrr_wf r ws R) H). Qed.
 
 Lemma wrr_back_to_back : forall (r : Q) (ws : list (Z * Z)) acts1 s1 tr1 s2 o acts2 s3 tr2 t x,
   0 < r -> (forall f w, In (f, w) ws -> (0 < w)%Z) ->
-  wrr_run r ws acts1 = Some (s1, tr1) -> wrr_act r ws s1 SChildTimer = Some (s2, o) -> (exists f, held_flow s2 f <> []) ->
+  wrr_run r ws acts1 = Some (s1, tr1) -> wrr_act r ws s1 SChildTimer = Some (s2, o) -> (exists k, held_class (wrr_cfg r ws) s2 k <> []) ->
   mq_run (wrr_cfg r ws) s2 acts2 = Some (s3, tr2) -> (forall t', ~ In (SAdvance t') acts2) -> wrr_act r ws s3 (SAdvance t) = Some x ->
   exists e p, In e tr2 /\ In (OStart p) (snd e) /\ fst (fst e) = mnow s2.
 Proof. intros r ws acts1 s1 tr1 s2 o acts2 s3 tr2 t x R Pos H1 A2 Hh H2 NA A3. exact (back_to_back (wrr_cfg r ws) acts1 s1 tr1 s2 o acts2 s3 tr2 t x (wrr_cfg_ok r ws R Pos) H1 A2 Hh H2 NA A3). Qed.
@@ -32,23 +35,23 @@ Lemma wrr_flow_fifo : forall (r : Q) (ws : list (Z * Z)) acts s tr f,
   0 < r ->
   wrr_run r ws acts = Some (s, tr) ->
   exists rest, filter (is_flow f) (tr_puts tr) = filter (is_flow f) (tr_fwds tr) ++ rest.
-Proof. intros r ws acts s tr f R H. exact (run_flow_fifo (wrr_cfg r ws) acts s tr f R H). Qed.
+Proof. intros r ws acts s tr f R H. exact (run_flow_fifo (wrr_cfg r ws) acts s tr f (wrr_wf r ws R) H). Qed.
 
 Lemma wrr_exactly_once : forall (r : Q) (ws : list (Z * Z)) acts s tr p,
   0 < r ->
   wrr_run r ws acts = Some (s, tr) ->
   count_occ pkt_eq_dec (tr_puts tr) p
-  = (count_occ pkt_eq_dec (tr_fwds tr) p + count_occ pkt_eq_dec (held_flow s (flow p)) p)%nat.
-Proof. intros r ws acts s tr p R H. exact (run_exactly_once (wrr_cfg r ws) acts s tr p R H). Qed.
+  = (count_occ pkt_eq_dec (tr_fwds tr) p + count_occ pkt_eq_dec (held_class (wrr_cfg r ws) s ((flow p))) p)%nat.
+Proof. intros r ws acts s tr p R H. exact (run_exactly_once (wrr_cfg r ws) acts s tr p (wrr_wf r ws R) H). Qed.
 
 Lemma wrr_counters : forall (r : Q) (ws : list (Z * Z)) acts s tr,
   0 < r ->
   wrr_run r ws acts = Some (s, tr) ->
-  (forall f, mqc s f = Z.of_nat (length (held_flow s f)) /\ mqb s f = sumsz (held_flow s f))
-  /\ mtotal s = zsum (fun f => Z.of_nat (length (held_flow s f))) (dflows (wrr_cfg r ws))
+  (forall f, mqc s f = Z.of_nat (length (held_flow (wrr_cfg r ws) s f)) /\ mqb s f = sumsz (held_flow (wrr_cfg r ws) s f))
+  /\ mtotal s = zsum (fun k => Z.of_nat (length (held_class (wrr_cfg r ws) s k))) (dclasses (wrr_cfg r ws))
   /\ mcur s = match mchild s with CTx p _ => Some p | _ => None end
   /\ mrecv s = Z.of_nat (length (tr_puts tr)).
-Proof. intros r ws acts s tr R H. exact (run_counters (wrr_cfg r ws) acts s tr R H). Qed.
+Proof. intros r ws acts s tr R H. exact (run_counters (wrr_cfg r ws) acts s tr (wrr_wf r ws R) H). Qed.
 
 Lemma wrr_never_spins : forall (r : Q) (ws : list (Z * Z)) acts s tr,
   0 < r -> (forall f w, In (f, w) ws -> (0 < w)%Z) ->
@@ -59,21 +62,22 @@ Lemma wrr_monitor_samples : forall (r : Q) (ws : list (Z * Z)) acts s tr incl,
   0 < r ->
   wrr_run r ws acts = Some (s, tr) ->
   wrr_act r ws s (SSample incl) =
-    Some (s, [OSample (map (fun f => let l := if incl then held_flow s f else waiting_flow s f in
-                                     (f, Z.of_nat (length l), sumsz l)) (dflows (wrr_cfg r ws)))]).
-Proof. intros r ws acts s tr incl R H. exact (monitor_samples0 (wrr_cfg r ws) acts s tr incl R H). Qed.
+    Some (s, [OSample (map (fun f => let l := if incl then held_flow (wrr_cfg r ws) s f else waiting_flow (wrr_cfg r ws) s f in
+                                     (f, Z.of_nat (length l), sumsz l)) (sflows (wrr_cfg r ws)))]).
+Proof. intros r ws acts s tr incl R H. exact (monitor_samples0 (wrr_cfg r ws) acts s tr incl (wrr_wf r ws R) H). Qed.
 
 Lemma wrr_conserves : forall (r : Q) (ws : list (Z * Z)) acts s tr,
   0 < r ->
   wrr_run r ws acts = Some (s, tr) ->
-  (forall f, filter (is_flow f) (tr_puts tr) = filter (is_flow f) (tr_fwds tr) ++ held_flow s f)
-  /\ (forall p, In p (tr_puts tr) -> In (flow p) (flows (wrr_cfg r ws))).
-Proof. intros r ws acts s tr R H. exact (run_conserves (wrr_cfg r ws) acts s tr R H). Qed.
+  (forall k, filter (is_class (wrr_cfg r ws) k) (tr_puts tr) = filter (is_class (wrr_cfg r ws) k) (tr_fwds tr) ++ held_class (wrr_cfg r ws) s k)
+  /\ (forall f, filter (is_flow f) (tr_puts tr) = filter (is_flow f) (tr_fwds tr) ++ held_flow (wrr_cfg r ws) s f)
+  /\ (forall p, In p (tr_puts tr) -> In ((flow p)) (classes (wrr_cfg r ws))).
+Proof. intros r ws acts s tr R H. exact (run_conserves (wrr_cfg r ws) acts s tr (wrr_wf r ws R) H). Qed.
 
 Lemma wrr_drained : forall (r : Q) (ws : list (Z * Z)) acts s tr,
   0 < r -> (forall f w, In (f, w) ws -> (0 < w)%Z) ->
   wrr_run r ws acts = Some (s, tr) -> urgent (wrr_cfg r ws) s = false -> (forall p dl, mchild s <> CTx p dl) ->
-  (forall f, held_flow s f = []) /\ (forall f, mqc s f = 0%Z /\ mqb s f = 0%Z) /\ mcur s = None /\
+  (forall k, held_class (wrr_cfg r ws) s k = []) /\ (forall f, mqc s f = 0%Z /\ mqb s f = 0%Z) /\ mcur s = None /\
   (forall f, filter (is_flow f) (tr_puts tr) = filter (is_flow f) (tr_fwds tr)) /\ mpc s <> PSpin.
 Proof. intros r ws acts s tr R Pos H U Nd. exact (drained0 (wrr_cfg r ws) acts s tr (wrr_cfg_ok r ws R Pos) H U Nd). Qed.
 
@@ -82,19 +86,19 @@ Lemma wrr_visit : forall (r : Q) (ws : list (Z * Z)) acts s tr,
   wrr_run r ws acts = Some (s, tr) ->
   exists k, walk (pass (wrr_cfg r ws)) (pass (wrr_cfg r ws)) (tr_visits tr) = Some k /\
             norm (pass (wrr_cfg r ws)) k = norm (pass (wrr_cfg r ws)) (cursor (wrr_cfg r ws) s).
-Proof. intros r ws acts s tr R H. exact (visits_run0 (wrr_cfg r ws) acts s tr R eq_refl H). Qed.
+Proof. intros r ws acts s tr R H. exact (visits_run0 (wrr_cfg r ws) acts s tr (wrr_wf r ws R) eq_refl H). Qed.
 
 Lemma wrr_visit_meaning : forall (r : Q) (ws : list (Z * Z)) acts s tr a s' o f b,
   0 < r ->
   wrr_run r ws acts = Some (s, tr) -> wrr_act r ws s a = Some (s', o) -> In (OVisit f b) o ->
   if b then exists x rest, items (mstores s f) = x :: rest /\ get (mstores s' f) = GGranted x /\ items (mstores s' f) = rest
-  else items (mstores s f) = [] /\ held_flow s f = [].
-Proof. intros r ws acts s tr a s' o f b R H A Hin. exact (visit_meaning0 (wrr_cfg r ws) acts s tr a s' o f b R H A Hin). Qed.
+  else items (mstores s f) = [] /\ held_class (wrr_cfg r ws) s f = [].
+Proof. intros r ws acts s tr a s' o f b R H A Hin. exact (visit_meaning0 (wrr_cfg r ws) acts s tr a s' o f b (wrr_wf r ws R) H A Hin). Qed.
 
 Lemma wrr_starts_follow_visits : forall (r : Q) (ws : list (Z * Z)) acts s tr,
   0 < r ->
-  wrr_run r ws acts = Some (s, tr) -> served (tr_visits tr) = map flow (tr_starts tr) ++ pending s.
-Proof. intros r ws acts s tr R H. exact (starts_follow_visits0 (wrr_cfg r ws) acts s tr R H). Qed.
+  wrr_run r ws acts = Some (s, tr) -> served (tr_visits tr) = map (pclass (wrr_cfg r ws)) (tr_starts tr) ++ pending (wrr_cfg r ws) s.
+Proof. intros r ws acts s tr R H. exact (starts_follow_visits0 (wrr_cfg r ws) acts s tr (wrr_wf r ws R) H). Qed.
 
 (* non-vacuity: a concrete admissible execution (observed on the real WRR: four packets put at t = 0 before the wake-up
    token is processed, 128 B at 1024 bit/s = 1 s each), its departure order, its visits, and the drained final state *)
